@@ -76,6 +76,35 @@ pub struct Error<E1, E2> {
 }
 
 /// Expands a variable to its value.
+/// Parses a variable value as an integer constant with an optional sign.
+///
+/// The constant has the same syntax as in an expression: decimal, octal (with a
+/// leading `0`), or hexadecimal (with a leading `0x` or `0X`).
+fn parse_integer(value: &str) -> Option<i64> {
+    let (negative, constant) = match value.strip_prefix('-') {
+        Some(constant) => (true, constant),
+        None => (false, value.strip_prefix('+').unwrap_or(value)),
+    };
+    if !constant.starts_with(|c: char| c.is_ascii_digit())
+        || !constant.bytes().all(|b| b.is_ascii_alphanumeric())
+    {
+        return None;
+    }
+    let magnitude = if let Some(digits) = constant
+        .strip_prefix("0x")
+        .or_else(|| constant.strip_prefix("0X"))
+    {
+        i128::from_str_radix(digits, 0x10)
+    } else if constant.starts_with('0') {
+        i128::from_str_radix(constant, 0o10)
+    } else {
+        constant.parse()
+    }
+    .ok()?;
+    let number = if negative { -magnitude } else { magnitude };
+    number.try_into().ok()
+}
+
 fn expand_variable<E: Env>(
     name: &str,
     location: &Range<usize>,
@@ -83,10 +112,10 @@ fn expand_variable<E: Env>(
 ) -> Result<Value, Error<E::GetVariableError, E::AssignVariableError>> {
     match env.get_variable(name) {
         Ok(None) => Ok(Value::Integer(0)),
-        // TODO Parse non-decimal integer and float
-        Ok(Some(value)) => match value.parse() {
-            Ok(number) => Ok(Value::Integer(number)),
-            Err(_) => Err(Error {
+        // TODO Parse float
+        Ok(Some(value)) => match parse_integer(value) {
+            Some(number) => Ok(Value::Integer(number)),
+            None => Err(Error {
                 cause: EvalError::InvalidVariableValue(value.to_string()),
                 location: location.clone(),
             }),
